@@ -37,7 +37,7 @@ FoldRounding(e) ==
   IF ~a.ok THEN {} ELSE IF ApproxSame(ex, a, 12) THEN {"note_fold_within_rounding"} ELSE {"value"}
 \* the node handed to the rule is the counterpart (same in-order position) of the node that was asked about
 AskedNode(e) == IF e.kw = e.k THEN {} ELSE {"worked_on_another_node"}
-Verdict(e) == CASE e.typ = "step" -> StepVerdict(e, FV, FS, FR) \cup AskedNode(e) \cup ImplDriftStep(e) \cup (IF FV THEN FoldRounding(e) ELSE {}) [] e.typ = "probe" -> ProbeVerdict(e) \cup ImplDriftProbe(e) [] e.typ = "print" -> PrintVerdict(e) [] e.typ = "reprobe" -> ReprobeVerdict(e) [] OTHER -> {"harness_unknown_event"}
+Verdict(e) == CASE e.typ = "step" -> StepVerdict(e, FV, FS, FR) \cup AskedNode(e) \cup ImplDriftStep(e) \cup (IF FV THEN FoldRounding(e) ELSE {}) [] e.typ = "probe" -> ProbeVerdict(e) \cup ImplDriftProbe(e) [] e.typ = "print" -> PrintVerdict(e) [] e.typ = "reprobe" -> ReprobeVerdict(e) [] e.typ = "intact" -> IntactVerdict(e) [] OTHER -> {"harness_unknown_event"}
 VARIABLES i, v
 Init == i \in 1..N /\ v = {"pending"}
 Next == v = {"pending"} /\ v' = Verdict(Events[i]) /\ UNCHANGED i
